@@ -315,6 +315,17 @@ def generate(rng, tier):
                 cases.append(cell_mask_case(rc, cls, target, variant))
         if cls not in SURVEYS or tier != "quick":
             cases.append(cell_mask_case(rc, cls, rc.choice(["same", "ws"]), "vertex"))
+    # a cell mask of the wrong length is refused (IndexError from the boolean index), alone and next to a fitting vertex mask
+    for cls, variant in (("Curve", "cell"), ("Surface", "both")):
+        c = cell_mask_case(rc, cls, "ws", variant)
+        c["opts"]["cell_mask"] = c["opts"]["cell_mask"][:-1]
+        cases.append(c)
+    # Group.copy forwards `mask=` only: a cell_mask keyword given to a group leaves the cells of the objects below it alone
+    for variant in ("cell", "both"):
+        for target in ("same", "ws"):
+            c = cell_mask_case(rc, rc.choice(["Curve", "Surface"]), target, variant)
+            c["src"] = {"cls": "ContainerGroup", "name": "gcm", "meta": {"gk": 1}, "children": [c["src"]]}
+            cases.append(c)
     for _ in range(12 if tier == "quick" else 1500):
         cls = rc.weighted([("Curve", 40), ("Surface", 40), ("AirborneMagnetics", 10), ("NeighbourhoodSurface", 10)])
         cases.append(cell_mask_case(rc, cls, rc.weighted([("same", 35), ("group", 20), ("ws", 30), ("wsgroup", 15)]),
@@ -964,7 +975,7 @@ def _ctree_term(node, n_old):
         clist(_ctree_term(c, n_old) for c in node.get("children", [])))
 
 
-ERRMAP = {"NotCopied": "ENotCopied", "ValueError": "EMaskShape", "RecursionError": "ERecursion", "KeyError": "EKeyError", "TypeError": "ETypeError"}
+ERRMAP = {"NotCopied": "ENotCopied", "ValueError": "EMaskShape", "RecursionError": "ERecursion", "KeyError": "EKeyError", "TypeError": "ETypeError", "IndexError": "EIndex"}
 
 
 def case_term(case, obs):
@@ -1374,6 +1385,10 @@ def oracle(case, obs):
             expected = True
         if mask is not None and obs["error"] in ("ValueError", "TypeError") and not _mask_fits(obs["src_reloaded"], mask):
             expected = True  # a mask whose shape does not fit the copied entity (or some object below a copied group) is refused
+        cmk_ = case["opts"].get("cell_mask")
+        if cmk_ is not None and obs["error"] == "IndexError" and GEO.get(obs["src_reloaded"]["cls"]) in ("GCells", "GCurve") \
+                and len(cmk_) != len(obs["src_reloaded"]["attrs"].get("cells") or []):
+            expected = True  # a cell mask that does not have one entry per cell is refused
         if not expected:
             fails.append({"key": "copy-refused:" + obs["error"], "what": f"copy of {obs['src_cls']} to {target} raised {obs['error']}: {obs.get('msg')}"})
     # source and bystanders untouched by the copy itself
